@@ -302,6 +302,18 @@ def run(chk):
                     add("b'" + intro + "".join(digits) + "'", "CERRANY")
     for bad in ["'\\1+1'", "'\\10+'", "'\\0 1'", "b'\\1_1'", "'\\1-1'", "b'\\01+'"]:
         add(bad, "CERRANY")
+    # two escapes that are each invalid alone do not make a valid character together: surrogate pairs in every spelling
+    for hi in ["d800", "D83D", "dbff", "DBFF", "d83d"]:
+        for lo in ["dc00", "DE00", "dfff", "DFFF", "de00"]:
+            for q in "'\"":
+                add(q + "\\u" + hi + "\\u" + lo + q, "CERRANY")
+                add(q + "a\\u" + hi + "\\u" + lo + "b" + q, "CERRANY")
+            add("'\\U0000" + hi + "\\U0000" + lo + "'", "CERRANY")
+            add("'\\u" + hi + "\\U0000" + lo + "'", "CERRANY")
+            add("'\\u" + lo + "\\u" + hi + "'", "CERRANY")
+            add("f'\\u" + hi + "\\u" + lo + "'", "CERRANY")
+        add("'\\u" + hi + "\\u0041'", "CERRANY")
+        add("'\\u" + hi + "A'", "CERRANY")
     n_str = len(cases)
     # ---- byte strings ----------------------------------------------------------------------------
     for _ in range(300 if quick else 5000):
